@@ -16,7 +16,7 @@ RULE = ("(a) in-memory reader histories (per-record Site values: Standard counts
         "t_j = 0, m_j = 0 - compared with the exact model within 1e-9; (b) random call sets through `sfs create "
         "--project-shape/-p --precision p`: every printed value within 0.5*10^-p + 1e-9*records of the model, exit "
         "status, summary; cohorts of 100-300 samples; -p i vs --project-shape 2i+1 must print identical bytes; builder "
-        "errors (dimension mismatch, too large, zero). non-trivial = at least one Projected site; cohorts of 520-640 samples include monomorphic, singleton, nearly fixed and fixed sites (boundary terms of the log-space kernel); weights below 2^-52 (28-30 samples projected to half, three populations) compared relatively (1e-9)")
+        "errors (dimension mismatch, too large, zero). non-trivial = at least one Projected site; cohorts of 520-640 samples include monomorphic, singleton, nearly fixed and fixed sites (boundary terms of the log-space kernel); weights below 2^-52 (28-30 samples projected to half, three populations) compared relatively (1e-9); 30-45 populations projected down to nine entries (the unprojected spectrum could not be allocated)")
 
 
 def scale_of(case):
@@ -109,6 +109,17 @@ def check(rep, tier, seed):
         jobs.append((["create", "--precision", str(p)] + cli_samples_arg(sm) + cli_project_arg(proj), render_vcf(cols, recs)))
         mcases.append("create 0 %s %s %s %s" % (",".join(cols), model_samples(sm), model_project(proj), model_records(recs)))
         precs.append((p, len(recs)))
+    # dozens of populations projected down to a small spectrum: the spectrum that would hold every population in full could
+    # never be allocated (3^40 entries), the projected one has nine - what is created is the projected one
+    for npop in (30, 40, 45):
+        cols = ["m%d" % i for i in range(npop + 3)]
+        sm = [("m0", "q0"), ("m1", "q0"), ("m2", "q0"), ("m3", "q1"), ("m4", "q1")] + [("m%d" % (i + 3), "q%d" % i) for i in range(2, npop)]
+        recs = [[rng.choice(["0/0", "0/1", "1/1", "0|1"]) for _ in cols] for _ in range(6)]
+        recs[1][0] = "./."; recs[2][4] = "."; recs[3][7] = "./."; recs[4][1] = "0/2"
+        for proj in (("s", [3, 3] + [1] * (npop - 2)), ("i", [1, 1] + [0] * (npop - 2)), ("s", [5, 1] + [1] * (npop - 3) + [3])):
+            jobs.append((["create", "--precision", "9"] + cli_samples_arg(sm) + cli_project_arg(proj), render_vcf(cols, recs)))
+            mcases.append("create 0 %s %s %s %s" % (",".join(cols), model_samples(sm), model_project(proj), model_records(recs)))
+            precs.append((9, len(recs)))
     exps = run_model(mcases)
     res = run_cli_many(jobs)
     for job, (rc, so, se), exp, mc, (p, nrec) in zip(jobs, res, exps, mcases, precs):
